@@ -146,14 +146,14 @@ def prices_for(D, names, T):
 
 
 # ------------------------------------------------------------------------------------------- portfolios
-def pf_contract_storage(D, T=3, freq='h', unit='h', eff=0.75, wacc=False, win_s=None, win_c=None, storage_kw=None):
+def pf_contract_storage(D, T=3, freq='h', unit='h', eff=0.75, wacc=False, win_s=None, win_c=None, storage_kw=None, storage_first=False):
     eao = lift.import_eao()
     tg = grid(T, freq, unit)
     (nA,) = nodes('A')
     w = D('wacc', lo=0) if wacc else 0
     m = mk_market(D, 'mkt', nA, T, 'p', ec=True, wacc=w, win=win_c, tg=tg)
     st = mk_storage(D, 'sto', nA, price=None, eff=eff, wacc=w, win=win_s, tg=tg, **(storage_kw or {}))
-    pf = eao.portfolio.Portfolio([m, st])
+    pf = eao.portfolio.Portfolio([st, m] if storage_first else [m, st])      # storage_first: an asset with another window is set up after the storage
     return Shape(pf, tg, prices_for(D, ['p'], T))
 
 
@@ -234,10 +234,15 @@ def mk_plant(D, name, nds, T, price='p', fuel=True, heat=False, mr=0, md=0, tar=
         args['ramp'] = D(name + '_ramp', lo_strict=0)
     if last_dispatch is not None:
         args['last_dispatch'] = D(name + '_last', lo=0) if last_dispatch == 'sym' else last_dispatch
+    # (lower, None): one profile only -- the documented default upper = lower
     if start_ramp is not None:
-        args['start_ramp_lower_bounds'] = list(start_ramp[0]); args['start_ramp_upper_bounds'] = list(start_ramp[1])
+        args['start_ramp_lower_bounds'] = list(start_ramp[0])
+        if start_ramp[1] is not None:
+            args['start_ramp_upper_bounds'] = list(start_ramp[1])
     if shutdown_ramp is not None:
-        args['shutdown_ramp_lower_bounds'] = list(shutdown_ramp[0]); args['shutdown_ramp_upper_bounds'] = list(shutdown_ramp[1])
+        args['shutdown_ramp_lower_bounds'] = list(shutdown_ramp[0])
+        if shutdown_ramp[1] is not None:
+            args['shutdown_ramp_upper_bounds'] = list(shutdown_ramp[1])
     if fuel:
         args.update(start_fuel=D(name + '_sf', lo=0), fuel_efficiency=D.coef(name + '_fe', 0.5, lo_strict=0),
                     consumption_if_on=D(name + '_cio', lo=0))
